@@ -339,3 +339,94 @@ func RejectedWordFor(n uint32) (uint32, bool) {
 	rejCache[n] = -1
 	return 0, false
 }
+
+// chunkProbe delivers scripted words at most chunk bytes per Read (always
+// without error): a legal io.Reader behaviour the OS source never shows.
+type chunkProbe struct {
+	buf   []byte
+	chunk int
+	reads int
+	out   int
+}
+
+func (p *chunkProbe) Read(b []byte) (int, error) {
+	p.reads++
+	if len(p.buf) == 0 {
+		return 0, ErrExhausted
+	}
+	k := len(b)
+	if k > p.chunk {
+		k = p.chunk
+	}
+	if k > len(p.buf) {
+		k = len(p.buf)
+	}
+	copy(b, p.buf[:k])
+	p.buf = p.buf[k:]
+	p.out += k
+	return k, nil
+}
+
+// ObserveChunked runs the real bounded draw with the raw words delivered in
+// pieces of at most chunk bytes. It returns the result and the bytes consumed.
+func ObserveChunked(n uint32, chunk int, words ...uint32) (res uint32, bytes int, panicked bool) {
+	saveR, saveH := rand.Reader, spg.VerifOnDraw
+	p := &chunkProbe{chunk: chunk}
+	for _, w := range words {
+		p.buf = binary.BigEndian.AppendUint32(p.buf, w)
+	}
+	rand.Reader = p
+	spg.VerifOnDraw = nil
+	defer func() {
+		rand.Reader, spg.VerifOnDraw = saveR, saveH
+		if r := recover(); r != nil {
+			panicked = true
+			bytes = p.out
+		}
+	}()
+	res = spg.VerifRandomUint32n(n)
+	return res, p.out, false
+}
+
+// interposeProbe serves the words of an outer draw, but before answering the
+// outer draw's first read it lets a complete inner bounded draw (another bound,
+// its own word) run to completion - the single-goroutine equivalent of another
+// goroutine drawing while this one waits in the random source.
+type interposeProbe struct {
+	outer  *probe
+	innerN uint32
+	innerW uint32
+	done   bool
+}
+
+func (p *interposeProbe) Read(b []byte) (int, error) {
+	if !p.done {
+		p.done = true
+		save := rand.Reader
+		rand.Reader = &probe{w: []uint32{p.innerW, 0, 0}}
+		func() {
+			defer func() { recover() }()
+			spg.VerifRandomUint32n(p.innerN)
+		}()
+		rand.Reader = save
+	}
+	return p.outer.Read(b)
+}
+
+// ObserveInterposed is Observe with an inner draw (bound innerN, first word
+// innerW) interposed at the outer draw's first read of the source.
+func ObserveInterposed(n uint32, innerN, innerW uint32, words ...uint32) (res uint32, reads int, panicked bool) {
+	saveR, saveH := rand.Reader, spg.VerifOnDraw
+	o := &probe{w: words}
+	rand.Reader = &interposeProbe{outer: o, innerN: innerN, innerW: innerW}
+	spg.VerifOnDraw = nil
+	defer func() {
+		rand.Reader, spg.VerifOnDraw = saveR, saveH
+		if r := recover(); r != nil {
+			panicked = true
+			reads = o.reads
+		}
+	}()
+	res = spg.VerifRandomUint32n(n)
+	return res, o.reads, false
+}
